@@ -185,7 +185,21 @@ func (g *histGen) read() {
 		for n := pulls; n > 0; n-- {
 			g.add("NX", itoa(id))
 		}
-	case 9, 10:
+	case 9:
+		// the same push iterator value run twice
+		ks := []string{"A", "V", "K"}[r.Intn(3)]
+		if ks == "K" && !(v.term() && (g.capReads == 0 || v.hi <= 50)) {
+			ks = "V"
+		}
+		pick := func() int {
+			k := r.Pick([]int{1, 2, 3, 5, 99, 101, -1})
+			if (k < 0 || k > 10) && (!v.term() || g.capReads > 0) {
+				k = r.Pick([]int{1, 2, 5, 8})
+			}
+			return k
+		}
+		g.add("RR", itoa(i), ks, itoa(pick()), itoa(pick()))
+	case 10:
 		kind := r.Pick([]int{0, 1, 2})
 		ks := []string{"A", "V", "K"}[kind]
 		if ks == "K" && !v.term() {
@@ -511,7 +525,9 @@ func init() {
 		}
 		genHist("count", n, r, emit)
 		genLongScans(tier, r, emit)
-	}, ops)
+		// printing to a failing writer must not consult the digits of later ranges either (as C12)
+		genC12Far(tier, r, emit)
+	}, map[string]runner{"Hist": runHist, "Fprint": runFprint})
 	register("C17", func(tier string, r *Rng, emit func(Case)) {
 		n := 1500
 		if tier == "thorough" {
